@@ -3339,7 +3339,12 @@ def cartesian(
         result = ak.layout.RecordArray(outs, recordlookup, parameters=parameters)
         for i in range(len(new_arrays) - 1, -1, -1):
             if i in nested:
-                result = ak.layout.RegularArray(result, len(layouts[i + 1]), 0)
+                # one group per combination of items of arrays 0..i
+                outer = 1
+                for x in layouts[: i + 1]:
+                    outer *= len(x)
+                size = len(result) // outer if outer != 0 else 0
+                result = ak.layout.RegularArray(result, size, outer)
 
     elif is_partitioned:
         sample = None
